@@ -306,7 +306,8 @@ pub fn run(args: &Args) -> Report {
     for buf in [1usize, 2, 3] {
         for late in [false, true] {
             for with_stream in [false, true] {
-                for cap in if thorough { vec![0usize, 1] } else { vec![0usize] } {
+                // (a link that takes one message at a time: the sending task meets a sink that is not ready)
+                for cap in if thorough { vec![0usize, 1, 2] } else { vec![0usize, 1] } {
                     let n = buf + 2;
                     let list = (0..n).map(|i| D { flow: 100 + (i as u32 % 2), host: vec![b'h', i as u8], port: 9, data: vec![i as u8; 1 + i % 3] }).collect();
                     let sc = Scn { name: format!("burst of {n} into buffer {buf} late_reader={late} with_stream={with_stream} cap={cap}"), list, buf, late_reader: late, with_stream, cap, two_readers: false };
